@@ -90,6 +90,10 @@ func (s *rpcServer) Start() error {
 		if rpcErr != nil {
 			return i18n.WrapError(s.ctx, rpcErr.Error(), signermsgs.MsgQueryChainID)
 		}
+		if !chainID.BigInt().IsInt64() {
+			// a chain ID that does not fit the int64 we sign with would be silently truncated by Int64()
+			return i18n.NewError(s.ctx, signermsgs.MsgQueryChainID)
+		}
 		s.chainID = chainID.BigInt().Int64()
 	}
 
